@@ -16,6 +16,7 @@ from .core import Check, run_tlc, tla
 
 LEVEL = "model_checking"
 
+OUTCOME = {"C09.rerun_failed": "C10.match_raised", "C09.diff_missed": "C10.difference_accepted"}
 LAYOUT = {"embedded": ("acme.client", None), "sibling": ("acme.api.client", "acme.api.core"), "toplevel": ("client", "sharedcore")}
 
 
@@ -51,6 +52,8 @@ def run_real(chk: Check, behaviours: list[dict], label: str, spec: dict | None =
             job["spec_old"] = b["spec_old"]
         if b.get("docname"):
             job["docname"] = b["docname"]
+        if b.get("tmpdir"):
+            job["tmpdir"] = b["tmpdir"]
         jobs.append(job)
     res = core.parallel_py(chk.scratch, "harness.w_genrun", jobs, timeout=1500)
     traces = []
@@ -73,7 +76,7 @@ def run_real(chk: Check, behaviours: list[dict], label: str, spec: dict | None =
     return traces
 
 
-def judge(chk: Check, traces: list[dict], label: str, clauses: tuple[str, ...]) -> None:
+def judge(chk: Check, traces: list[dict], label: str, clauses: tuple[str, ...], rename: dict[str, str] | None = None) -> None:
     d = chk.scratch.sub("genrun_traces")
     tf = d / "traces.ndjson"
     with tf.open("w") as f:
@@ -100,6 +103,7 @@ def judge(chk: Check, traces: list[dict], label: str, clauses: tuple[str, ...]) 
         for f in v["fails"]:
             if not f["clause"].startswith(clauses):
                 continue
+            f = dict(f, clause=(rename or {}).get(f["clause"], f["clause"]))
             loc = dict(f["locus"])
             loc["pp"] = t["sc"]["pp"]
             loc["cwd"] = t["sc"]["cwd"]
@@ -108,9 +112,11 @@ def judge(chk: Check, traces: list[dict], label: str, clauses: tuple[str, ...]) 
                 loc["variant"] = t["_job"]["existing"]
             if t.get("_big"):
                 loc["big"] = True
+            if t["_job"].get("tmpdir"):
+                loc["tmpdir"] = t["_job"]["tmpdir"]
             if t["_job"].get("docname"):
                 loc["doc"] = t["_job"]["docname"]   # a catalogue document (one feature), not the default document of the tree variants
-            chk.fail(f["clause"], loc, {"sc": t["sc"], "variant": t["_job"]["existing"], "big": bool(t.get("_big")), "docname": t["_job"].get("docname", "")}, json.dumps(examples)[:400] + " err=" + t["_raw"].get("err", "")[:120])
+            chk.fail(f["clause"], loc, {"sc": t["sc"], "variant": t["_job"]["existing"], "big": bool(t.get("_big")), "docname": t["_job"].get("docname", ""), "tmpdir": t["_job"].get("tmpdir", "")}, json.dumps(examples)[:400] + " err=" + t["_raw"].get("err", "")[:120])
     if nd > 3:
         chk.note_drift(f"{nd} runs in total whose result differs from the model's")
     t = traces[len(traces) // 2]
@@ -150,6 +156,13 @@ def run(chk: Check) -> None:
             # an up-to-date tree whose top-level ancestor package lost its marker (a namespace package the user keeps that way):
             # nothing the comparison looks at differs
             extra.append(dict(b, variant="missing:ancestor_init"))
+    # the ENVIRONMENT of the run: every non-force behaviour over an existing tree once more with the temporary directory below a
+    # dot-directory and once with a blank / non-ASCII path (the comparison tree lives there)
+    for b in list(beh):
+        sc = b["sc"]
+        if not sc["force"] and sc["existing"] != "absent" and sc["fault"] == "none" and not sc["pp"] and sc["cwd"] == "elsewhere":
+            for td in ("hidden", "spaced") if thorough or sc["core"] == "embedded" else ("hidden",):
+                extra.append(dict(b, tmpdir=td))
     # one large document (> 200 emitted .py files) for post-processed writing runs: tools that switch strategy on size
     big = big_document(230)
     for b in beh:
@@ -158,7 +171,9 @@ def run(chk: Check) -> None:
             if thorough or (sc["existing"] == "absent" and sc["force"]):
                 extra.append(dict(b, spec=big))
     traces = run_real(chk, beh + extra, "r")
-    judge(chk, traces, "behaviours", ("C10.",))
+    # the outcome half of the property ("on a match it succeeds, on a difference ... it raises") is what Trace_GenRun reports as
+    # C09.rerun_failed / C09.diff_missed: judged here too, under C10's own clause names
+    judge(chk, traces, "behaviours", ("C10.", "C09.rerun_failed", "C09.diff_missed"), rename=OUTCOME)
     chk.require(chk.cov["clauses_checked"].get("faults_fired", 0) > 50, "fault injection hardly ever fired")
     chk.cov["exhaustive"] = True
 
@@ -176,12 +191,14 @@ def replay(chk: Check, path: str) -> None:
     b = {"sc": sc, "result": "?", "viol": []}
     if rec["scenario"].get("variant") and rec["scenario"]["variant"] != sc["existing"]:
         b["variant"] = rec["scenario"]["variant"]
+    if rec["scenario"].get("tmpdir"):
+        b["tmpdir"] = rec["scenario"]["tmpdir"]
     if rec["scenario"].get("docname"):
         b["docname"] = rec["scenario"]["docname"]
         b["spec"] = features.build([b["docname"]])
     if rec["scenario"].get("big"):
         b["spec"] = big_document(230)
     traces = run_real(chk, [b], "replay")
-    judge(chk, traces, "replay", ("C10.", "C09."))
+    judge(chk, traces, "replay", ("C10.", "C09."), rename=OUTCOME if chk.prop == "C10" else None)
     for f in chk.fails:
         print("REPLAY-FAIL", f["clause"], json.dumps(f["locus"]), f["detail"][:300])
